@@ -9,6 +9,7 @@ VERIF_REPO=<worktree>: quiet = exit 0 and no VIOLATION line.  Everything is reco
 /verif/refactors/<ID>/ (the patches, meta.json); the worktree is removed and the facts / evidence of the real
 tree are restored by a last run on /repo.
 """
+import fcntl
 import glob
 import json
 import os
@@ -85,4 +86,9 @@ def main():
 
 
 if __name__ == '__main__':
+    # one run per property at a time (the generated facts of a property are shared)
+    _lks = []
+    for _p in sorted(set([sys.argv[1]] + sys.argv[3:])):
+        _lks.append(open('/tmp/verif_prop_%s.lock' % _p, 'w'))
+        fcntl.flock(_lks[-1], fcntl.LOCK_EX)
     sys.exit(main())
